@@ -437,7 +437,7 @@ class Unit:
                 else:
                     lo_, hi_ = fp['body_open'], fp['body_close']
                 if anchor == '@body_start':
-                    splices.append((lo_ if lifted is not None else lo_ + 1, ins))
+                    splices.append((lo_ if (lifted is not None and lifted[2]) else lo_ + 1, ins))
                     continue
                 if anchor == '@body_end':
                     # just before the closing brace of the function body (only meaningful
@@ -762,6 +762,17 @@ def desugar_for_loops(text, spec, where, log):
                 elem = '(%s, it_%s[%s])' % (name, name, name)
         else:
             elem = ('it_%s[%s]' if mode == 'val' else '&it_%s[%s]') % (name, name)
+            if mode == 'ref' and re.match(r'^&\w+$', pat):
+                # `for &x in v`: the element is copied out (pattern `&x` on a `&T`, T: Copy)
+                pat = pat[1:]
+                elem = 'it_%s[%s]' % (name, name)
+            if mode == 'enum_val':
+                # `for (i, x) in EXPR.into_iter().enumerate()` over a Copy container
+                m_ = re.search(r'\s*\.into_iter\(\)\s*\.enumerate\(\)$', expr)
+                if not m_:
+                    raise ExtractError('%s: desugar_for: loop #%d is not over `.into_iter().enumerate()`' % (where, ordinal))
+                expr = expr[:m_.start()]
+                elem = '(%s, it_%s[%s])' % (name, name, name)
         if mode == 'enum_ref':
             # temporaries of EXPR must live as long as the loop (as they do for `for`): bind
             # through a `match` scrutinee
